@@ -38,15 +38,50 @@ theorem readLoop_congr (v w : View K) (hc : ∀ j, v.colAt j = w.colAt j) (hv : 
   | zero => intro j e; simp [View.readLoop]
   | succ f ih => intro j e; simp [View.readLoop, hc, hv, ih]
 
+theorem rowBegin_congr (v w : View K) (hp : ∀ i, v.ptrAt i = w.ptrAt i) (i : Nat) :
+    v.rowBegin i = w.rowBegin i := by simp [View.rowBegin, hp]
+
+theorem rowWidth_congr (v w : View K) (hp : ∀ i, v.ptrAt i = w.ptrAt i) (hs : v.col.size = w.col.size) :
+    v.rowWidth = w.rowWidth := by
+  funext i; simp [View.rowWidth, rowBegin_congr v w hp, View.fuel, hs]
+
+theorem row_congr (v w : View K) (hp : ∀ i, v.ptrAt i = w.ptrAt i)
+    (hc : ∀ j, v.colAt j = w.colAt j) (hv : ∀ j, v.valAt j = w.valAt j) (hs : v.col.size = w.col.size) :
+    v.row = w.row := by
+  funext i; simp [View.row, rowBegin_congr v w hp, View.fuel, hs, readLoop_congr v w hc hv]
+
 theorem toRows_congr (v w : View K) (hn : v.n = w.n) (hp : ∀ i, v.ptrAt i = w.ptrAt i)
     (hc : ∀ j, v.colAt j = w.colAt j) (hv : ∀ j, v.valAt j = w.valAt j) (hs : v.col.size = w.col.size) :
     v.toRows = w.toRows := by
-  have hb : ∀ i, v.rowBegin i = w.rowBegin i := by intro i; simp [View.rowBegin, hp]
-  have hf : v.fuel = w.fuel := by simp [View.fuel, hs]
-  have hw : v.rowWidth = w.rowWidth := by funext i; simp [View.rowWidth, hb, hf]
-  have hr : v.row = w.row := by
-    funext i; simp [View.row, hb, hf, readLoop_congr v w hc hv]
-  simp [View.toRows, hn, hw, hr]
+  simp [View.toRows, hn, rowWidth_congr v w hp hs, row_congr v w hp hc hv hs]
+
+theorem residual_congr [Add K] [Mul K] [Sub K] [Zero K] (v w : View K) (hn : v.n = w.n)
+    (hp : ∀ i, v.ptrAt i = w.ptrAt i) (hc : ∀ j, v.colAt j = w.colAt j) (hv : ∀ j, v.valAt j = w.valAt j)
+    (hs : v.col.size = w.col.size) (f x : Array K) : v.residual f x = w.residual f x := by
+  simp [View.residual, hn, row_congr v w hp hc hv hs]
+
+theorem mulVec_congr [Add K] [Mul K] [Sub K] [Zero K] (v w : View K) (hn : v.n = w.n)
+    (hp : ∀ i, v.ptrAt i = w.ptrAt i) (hc : ∀ j, v.colAt j = w.colAt j) (hv : ∀ j, v.valAt j = w.valAt j)
+    (hs : v.col.size = w.col.size) (x : Array K) : v.mulVec x = w.mulVec x := by
+  simp [View.mulVec, hn, row_congr v w hp hc hv hs]
+
+/-- the view of the `_f` entry points over the shifted arrays reads exactly what the view of the C entry
+points reads over the original arrays (same offsets, same values) — whatever the arrays contain -/
+theorem fortran_readers_eq (n : Nat) (ptr col : Array Int) (val : Array K) (pn : Int) :
+    let v1 : View K := { n := n, shift := 1, ptr := ptr.map (· + 1), col := col.map (· + 1), val := val,
+                         ptrEnd := n + 1, colEnd := pn + 1, valEnd := pn + 1 }
+    let v0 : View K := { n := n, shift := 0, ptr := ptr, col := col, val := val,
+                         ptrEnd := n + 1, colEnd := pn, valEnd := pn }
+    (∀ i, v1.ptrAt i = v0.ptrAt i) ∧ (∀ j, v1.colAt j = v0.colAt j) ∧ (∀ j, v1.valAt j = v0.valAt j)
+      ∧ v1.col.size = v0.col.size := by
+  intro v1 v0
+  have hf : ((fun x : Int => x - 1) ∘ fun x : Int => x + 1) = fun x : Int => x - 0 := by
+    funext x; simp
+  refine ⟨?_, ?_, ?_, ?_⟩
+  · intro i; simp only [v1, v0, View.ptrAt, rd_map, Option.map_map, hf]
+  · intro j; simp only [v1, v0, View.colAt, rd_map, Option.map_map, hf]
+  · intro j; rfl
+  · simp [v1, v0]
 
 end congr
 
@@ -204,5 +239,152 @@ theorem toArray_map_range_eq_ofFn {β : Type} (n : Nat) (g : Nat → β) :
     simp
 
 end dot
+
+section crsview
+variable {K : Type}
+
+/-- the view lib/amgcl.cpp builds over the arrays of `A` stored with index base `β` -/
+def crsView (β : Int) (A : CRS K) : View K :=
+  { n := A.nrows, shift := β, ptr := ptrArr β A, col := colArr β A, val := valArr A,
+    ptrEnd := (A.nrows : Int) + 1,
+    colEnd := (A.rows.toList.flatten.length : Int) + β,
+    valEnd := (A.rows.toList.flatten.length : Int) + β }
+
+theorem take_nrows (A : CRS K) : A.rows.toList.take A.nrows = A.rows.toList := by
+  simp [CRS.nrows]
+
+theorem mkView_crs (β : Int) (A : CRS K) :
+    mkView β A.nrows (ptrArr β A) (colArr β A) (valArr A) = some (crsView β A) := by
+  have h : rd (ptrArr β A) (A.nrows : Int) = some ((A.rows.toList.flatten.length : Int) + β) := by
+    unfold ptrArr
+    rw [rd_toArray, List.getElem?_map, ptr_getElem? A A.nrows (Nat.le_refl _), take_nrows]
+    rfl
+  simp [mkView, h, crsView]
+
+theorem crsView_ptrAt (β : Int) (A : CRS K) (i : Nat) (hi : i ≤ A.nrows) :
+    (crsView β A).ptrAt (i : Int) = some ((A.rows.toList.take i).flatten.length : Int) := by
+  unfold View.ptrAt crsView ptrArr
+  simp only []
+  rw [rd_toArray, List.getElem?_map, ptr_getElem? A i hi]
+  simp
+
+theorem crsView_rowBegin (β : Int) (A : CRS K) (i : Nat) (hi : i < A.nrows) :
+    (crsView β A).rowBegin i
+      = some (((A.rows.toList.take i).flatten.length : Int),
+              ((A.rows.toList.take i).flatten.length : Int) + ((A.row i).length : Int)) := by
+  have h1 : ((i : Int) + 1) = ((i + 1 : Nat) : Int) := by omega
+  unfold View.rowBegin
+  rw [h1, crsView_ptrAt β A i (Nat.le_of_lt hi), crsView_ptrAt β A (i + 1) hi,
+    take_succ_flatten_length A i hi]
+  simp
+
+theorem crsView_fuel (β : Int) (A : CRS K) : (crsView β A).fuel = A.rows.toList.flatten.length + 1 := by
+  show ((A.rows.toList.flatten.map _).toArray).size + 1 = _
+  rw [List.size_toArray, List.length_map]
+
+theorem row_length_le (A : CRS K) (i : Nat) (hi : i < A.nrows) :
+    (A.row i).length ≤ A.rows.toList.flatten.length := by
+  rw [rows_split A i hi]; simp; omega
+
+theorem crsView_rowWidth (β : Int) (A : CRS K) (i : Nat) (hi : i < A.nrows) :
+    (crsView β A).rowWidth i = some (A.row i).length := by
+  unfold View.rowWidth
+  rw [crsView_rowBegin β A i hi]
+  simp only [Option.bind_eq_bind, Option.bind_some]
+  apply countLoop_eq
+  rw [crsView_fuel]
+  have := row_length_le A i hi
+  omega
+
+theorem crsView_row (β : Int) (A : CRS K) (i : Nat) (hi : i < A.nrows) :
+    (crsView β A).row i = some ((A.row i).map (fun (cv : Nat × K) => ((cv.1 : Int), cv.2))) := by
+  unfold View.row
+  rw [crsView_rowBegin β A i hi]
+  simp only [Option.bind_eq_bind, Option.bind_some]
+  apply readLoop_flat (crsView β A) A.rows.toList.flatten (by simp [crsView, colArr]) (by simp [crsView, valArr])
+    (A.row i) (A.rows.toList.take i).flatten (A.rows.toList.drop (i + 1)).flatten _ (rows_split A i hi)
+  rw [crsView_fuel]
+  have := row_length_le A i hi
+  omega
+
+theorem crsView_toRows (β : Int) (A : CRS K) : (crsView β A).toRows = some (intRows A) := by
+  unfold View.toRows
+  have hw : (List.range (crsView β A).n).mapM (crsView β A).rowWidth
+      = some ((List.range (crsView β A).n).map (fun i => (A.row i).length)) := by
+    apply mapM_option_eq_some
+    intro i hi
+    exact crsView_rowWidth β A i (by simpa [crsView] using hi)
+  have hr : (List.range (crsView β A).n).mapM (crsView β A).row
+      = some ((List.range (crsView β A).n).map
+          (fun i => (A.row i).map (fun (cv : Nat × K) => ((cv.1 : Int), cv.2)))) := by
+    apply mapM_option_eq_some
+    intro i hi
+    exact crsView_row β A i (by simpa [crsView] using hi)
+  rw [hw, hr]
+  simp only [Option.bind_eq_bind, Option.bind_some, Option.pure_def, Option.some.injEq]
+  unfold intRows
+  congr 1
+  have hn : (crsView β A).n = A.rows.toList.length := by simp [crsView, CRS.nrows]
+  rw [hn]
+  have hrow : ∀ i, A.row i = A.rows.toList.getD i [] := by
+    intro i
+    simp only [CRS.row, Array.getD, List.getD, Array.getElem?_toList]
+    split <;> rename_i h <;> simp [h]
+  simp only [hrow]
+  exact map_range_getD A.rows.toList [] (fun r => r.map (fun (cv : Nat × K) => ((cv.1 : Int), cv.2)))
+
+theorem row_mem_wf (A : CRS K) (hA : A.WF) (i : Nat) (hi : i < A.nrows) :
+    ∀ cv ∈ A.row i, cv.1 < A.ncols := by
+  intro cv hcv
+  apply hA (A.row i) _ cv hcv
+  unfold CRS.row CRS.nrows at *
+  simp [hi]
+
+variable [Add K] [Mul K] [Sub K] [Zero K]
+
+theorem crsView_residual (β : Int) (A : CRS K) (hA : A.WF) (f x : Array K)
+    (hx : A.ncols ≤ x.size) (hf : A.nrows ≤ f.size) :
+    (crsView β A).residual f x = some (Amgcl.residual f A x) := by
+  unfold View.residual
+  have h : (List.range (crsView β A).n).mapM (fun i => do
+        let r ← (crsView β A).row i
+        let s ← rowDotChecked r x
+        let fi ← rd f i
+        pure (fi - s))
+      = some ((List.range (crsView β A).n).map (fun i => f.getD i 0 - Amgcl.rowDot (A.row i) x)) := by
+    apply mapM_option_eq_some
+    intro i hi
+    have hi' : i < A.nrows := by simpa [crsView] using hi
+    have hfi : rd f (i : Int) = some (f.getD i 0) := by
+      rw [rd_natCast]; simp [Array.getD, Nat.lt_of_lt_of_le hi' hf]
+    rw [crsView_row β A i hi']
+    simp only [Option.bind_eq_bind, Option.bind_some]
+    rw [rowDotChecked_eq (A.row i) x (fun cv hcv => Nat.lt_of_lt_of_le (row_mem_wf A hA i hi' cv hcv) hx)]
+    simp only [Option.bind_some, hfi, Option.pure_def]
+  rw [h]
+  simp only [Option.bind_eq_bind, Option.bind_some, Option.pure_def, Option.some.injEq]
+  rw [toArray_map_range_eq_ofFn]
+  rfl
+
+omit [Sub K] in
+theorem crsView_mulVec (β : Int) (A : CRS K) (hA : A.WF) (x : Array K) (hx : A.ncols ≤ x.size) :
+    (crsView β A).mulVec x = some (Array.ofFn (n := A.nrows) (fun i => Amgcl.rowDot (A.row i) x)) := by
+  unfold View.mulVec
+  have h : (List.range (crsView β A).n).mapM (fun i => do
+        let r ← (crsView β A).row i
+        rowDotChecked r x)
+      = some ((List.range (crsView β A).n).map (fun i => Amgcl.rowDot (A.row i) x)) := by
+    apply mapM_option_eq_some
+    intro i hi
+    have hi' : i < A.nrows := by simpa [crsView] using hi
+    rw [crsView_row β A i hi']
+    simp only [Option.bind_eq_bind, Option.bind_some]
+    exact rowDotChecked_eq (A.row i) x (fun cv hcv => Nat.lt_of_lt_of_le (row_mem_wf A hA i hi' cv hcv) hx)
+  rw [h]
+  simp only [Option.bind_eq_bind, Option.bind_some, Option.pure_def, Option.some.injEq]
+  rw [toArray_map_range_eq_ofFn]
+  rfl
+
+end crsview
 
 end Amgcl.CApi
